@@ -133,6 +133,17 @@ def run(ctx):
             return list(ps[0].value.v)
         return list(srv)
     seen_by_client = {tuple(s_): announced(s_) for s_ in server_sets}
+    base_env_ = R.const_env(auth.params[0])
+
+    def fresh_env(srv):
+        """a client that has just read the capabilities: constant attributes as __init__ leaves them (memo slots empty), the capability
+        table holding the announcement"""
+        env_ = dict(base_env_)
+        env_.pop("%s.authenticated" % auth.params[0], None)
+        if cap_attr0 is not None:
+            short = cap_attr0[len("_" + R.cls.name):] if cap_attr0.startswith("_" + R.cls.name + "__") else cap_attr0
+            env_["%s.%s" % (auth.params[0], short)] = fd.Const({"SASL": " ".join(srv), "IMPLEMENTATION": "x"})
+        return env_
     nruns = 0
     bad = None
     dispatched = set()
@@ -149,17 +160,17 @@ def run(ctx):
             try:
                 if feeder is None:
                     it = fd.Interp(auth.node, R.cls.name, oracle, resolve=module_resolver(ctx.program, R.module))
-                    paths = it.run({mech_param: fd.Const(pref)})
+                    paths = it.run(dict(fresh_env(srv), **{mech_param: fd.Const(pref)}))
                 else:
                     # the candidates are computed by a helper of the caller: evaluate helper, then authenticator on each result
                     paths = []
                     it0 = fd.Interp(feeder[1].node, R.cls.name, oracle, resolve=module_resolver(ctx.program, R.module))
-                    for p0 in it0.run({feeder_param: fd.Const(pref)}):
+                    for p0 in it0.run(dict(fresh_env(srv), **{feeder_param: fd.Const(pref)})):
                         if p0.kind != "return":
                             paths.append(p0)
                             continue
                         it = fd.Interp(auth.node, R.cls.name, oracle, resolve=module_resolver(ctx.program, R.module))
-                        for p1 in it.run({mech_param: p0.value}):
+                        for p1 in it.run(dict(fresh_env(srv), **{mech_param: p0.value})):
                             p1.events = list(p0.events) + list(p1.events)
                             paths.append(p1)
             except fd.TooManyPaths:
@@ -200,6 +211,45 @@ def run(ctx):
                 if truthy_store != ok:
                     bad = bad or ("%s `authenticated` although the attempt %s (%s)" % (
                         "sets" if truthy_store else "does not set", "succeeded" if ok else "failed", desc), p)
+    # the announcement may change between two selections on one client (before and after STARTTLS): the second one follows the
+    # second announcement, whatever the first one left on the object
+    if bad is None and feeder is None and cap_attr0 is not None:
+        short0 = cap_attr0[len("_" + R.cls.name):] if cap_attr0.startswith("_" + R.cls.name + "__") else cap_attr0
+        capkey = "%s.%s" % (auth.params[0], short0)
+        for srv1, srv2 in ((["LOGIN"], ["PLAIN"]), (["DIGEST-MD5", "PLAIN"], ["PLAIN"]), (["PLAIN"], ["OAUTHBEARER", "LOGIN"])):
+            for s_ in (srv1, srv2):
+                seen_by_client.setdefault(tuple(s_), announced(s_))
+
+            def mk_oracle(srv):
+                def oracle(interp, e, name, recv, args, kw, st, srv=srv):
+                    if name == "self.get_sasl_mechanisms":
+                        return [(fd.Const(list(seen_by_client[tuple(srv)])), None)]
+                    if name and name.startswith("self.") and name[5:] in R.methods and name[5:].endswith("_authentication"):
+                        return [(fd.Const(False), ("try", name[5:], False))]
+                    return None
+                return oracle
+            try:
+                p1s = fd.Interp(auth.node, R.cls.name, mk_oracle(srv1), resolve=module_resolver(ctx.program, R.module)).run(
+                    dict(fresh_env(srv1), **{mech_param: fd.Const(None)}))
+                if len(p1s) != 1:
+                    continue
+                env2 = {k: v for k, v in p1s[0].env.items() if k.startswith(auth.params[0] + ".")}
+                env2[capkey] = fd.Const({"SASL": " ".join(srv2), "IMPLEMENTATION": "x"})
+                p2s = fd.Interp(auth.node, R.cls.name, mk_oracle(srv2), resolve=module_resolver(ctx.program, R.module)).run(
+                    dict(env2, **{mech_param: fd.Const(None)}))
+            except fd.TooManyPaths:
+                continue
+            if len(p2s) != 1:
+                continue
+            tries2 = [x for x in p2s[0].events if x[0] == "try"]
+            expect2 = next((m for m in supp if m in srv2), None)
+            want2 = "_%s_authentication" % expect2.lower().replace("-", "_") if expect2 else None
+            got2 = tries2[0][1] if tries2 else None
+            nruns += 1
+            if got2 != want2:
+                bad = ("tries %s instead of %s when the server announced %s first and %s afterwards (e.g. before and after STARTTLS): the first "
+                       "choice is reused" % (got2, want2, srv1, srv2), p2s[0])
+                break
     if nruns < 100:
         raise AnalysisError("U3", "only %d selection paths enumerated" % nruns)
     if bad:
@@ -670,3 +720,56 @@ def is_str_expr(e, f, depth=0):
             isinstance(t, ast.Name) and t.id == e.id for t in (d.targets if isinstance(d, ast.Assign) else [d.target]))]
         return bool(defs) and any(is_str_expr(d.value, f, depth + 1) for d in defs)
     return False
+
+
+def selection_twice(ctx, R, auth):
+    """The authenticator interpreted twice on one client, the capability table holding another SASL announcement the second time
+    (what STARTTLS does): the mechanism tried the second time must be the reference choice for the SECOND announcement.
+    -> None (fine or not evaluable) | message"""
+    supp = Evaluator(ctx.program, R.module).lookup("SUPPORTED_AUTH_MECHS")
+    if supp is TOP:
+        return None
+    params = auth.params[1:]
+    mech_param = [p for p in params if "mech" in p.lower()]
+    if not mech_param or selection_feeders(R, auth) or selection_slice(R, auth) is not None:
+        return None
+    mech_param = mech_param[0]
+    try:
+        _cr0, cap_attr0 = capability_reader(R, connect_method(R, "U3"))
+    except AnalysisError:
+        return None
+    short0 = cap_attr0[len("_" + R.cls.name):] if cap_attr0.startswith("_" + R.cls.name + "__") else cap_attr0
+    capkey = "%s.%s" % (auth.params[0], short0)
+    base = R.const_env(auth.params[0])
+    for srv1, srv2 in ((["LOGIN"], ["PLAIN"]), (["DIGEST-MD5", "PLAIN"], ["PLAIN"]), (["PLAIN"], ["OAUTHBEARER", "LOGIN"])):
+        def mk(srv):
+            def oracle(interp, e, name, recv, args, kw, st, srv=srv):
+                if name == "self.get_sasl_mechanisms":
+                    return [(fd.Const(list(srv)), None)]
+                if name and name.startswith("self.") and name[5:] in R.methods and name[5:].endswith("_authentication"):
+                    return [(fd.Const(False), ("try", name[5:], False))]
+                return None
+            return oracle
+        try:
+            env1 = dict(base)
+            env1[capkey] = fd.Const({"SASL": " ".join(srv1), "IMPLEMENTATION": "x"})
+            env1[mech_param] = fd.Const(None)
+            p1 = fd.Interp(auth.node, R.cls.name, mk(srv1), resolve=module_resolver(ctx.program, R.module)).run(env1)
+            if len(p1) != 1:
+                continue
+            env2 = {k: v for k, v in p1[0].env.items() if k.startswith(auth.params[0] + ".")}
+            env2[capkey] = fd.Const({"SASL": " ".join(srv2), "IMPLEMENTATION": "x"})
+            env2[mech_param] = fd.Const(None)
+            p2 = fd.Interp(auth.node, R.cls.name, mk(srv2), resolve=module_resolver(ctx.program, R.module)).run(env2)
+        except fd.TooManyPaths:
+            continue
+        if len(p2) != 1:
+            continue
+        tries2 = [x for x in p2[0].events if x[0] == "try"]
+        expect2 = next((m for m in supp if m in srv2), None)
+        want2 = "_%s_authentication" % expect2.lower().replace("-", "_") if expect2 else None
+        got2 = tries2[0][1] if tries2 else None
+        if got2 != want2:
+            return ("the authenticator tries %s instead of %s when the server announced %s before the TLS handshake and %s after it: the choice "
+                    "made from the clear-text announcement is reused" % (got2, want2, srv1, srv2))
+    return None
